@@ -77,13 +77,14 @@ def session(ctx, binary, n, rng, kind, cert=None):
     """kind: what the client sends (client_stream) - or one of the end-of-session kinds:
        close      plain TCP; the client sends everything in one go and closes at once
        tls12close the same through the TLS proxy with TLS 1.2 on both legs (data and close_notify arrive together)
-       tls13      an ordinary session through the TLS proxy (TLS 1.3)"""
+       tls13      an ordinary session through the TLS proxy (TLS 1.3)
+       second     after an ordinary session the client leaves and a second client uses the same proxy process"""
     d = ctx.path("sess%d" % n)
     os.makedirs(d)
     tls = kind.startswith("tls")
     closing = kind.endswith("close")
     skind = kind
-    if tls or closing:
+    if tls or closing or kind == "second":
         kind = rng.choice(["valid", "mixed", "html"])
     up = socket.socket()
     up.setsockopt(socket.SOL_SOCKET, socket.SO_REUSEADDR, 1)
@@ -232,6 +233,45 @@ def session(ctx, binary, n, rng, kind, cert=None):
         stop.set()
         for t in ts:
             t.join(5)
+        if skind == "second" and p.poll() is None:
+            # the first client has gone; a second one connects to the same proxy process (the parser, the queue and
+            # the report carry on): its traffic is relayed exactly as well
+            for x in (cli, srv):
+                try:
+                    x.close()
+                except OSError:
+                    pass
+            time.sleep(0.2)
+            c2 = client_stream(rng, rng.choice(["valid", "mixed"]))
+            s2 = b"ICY 200 OK\r\n\r\n" + bytes(rng.getrandbits(8) for _ in range(rng.randint(0, 200)))
+            try:
+                cli = socket.create_connection(("127.0.0.1", pport), timeout=5)
+                srv, _ = up.accept()
+            except OSError:
+                cli = srv = None
+            s_got2, c_got2 = bytearray(), bytearray()
+            if cli is not None:
+                srv.settimeout(0.2)
+                cli.settimeout(0.2)
+                stop2 = threading.Event()
+                ts2 = [threading.Thread(target=pump, args=(cli, c2, rng.getrandbits(30))),
+                       threading.Thread(target=pump, args=(srv, s2, rng.getrandbits(30))),
+                       threading.Thread(target=drain, args=(srv, s_got2, len(c2), stop2)),
+                       threading.Thread(target=drain, args=(cli, c_got2, len(s2), stop2))]
+                for t in ts2:
+                    t.start()
+                deadline = time.time() + 20
+                while time.time() < deadline and (len(s_got2) < len(c2) or len(c_got2) < len(s2)) and p.poll() is None:
+                    time.sleep(0.01)
+                ev["stalled"] = ev["stalled"] or ((len(s_got2) < len(c2) or len(c_got2) < len(s2)) and p.poll() is None)
+                time.sleep(0.15)
+                stop2.set()
+                for t in ts2:
+                    t.join(5)
+            # the two sessions, one after the other, as one history
+            c2s, s2c = c2s + c2, s2c + s2
+            ev["c2s"], ev["s2c"] = list(c2s), list(s2c)
+            s_got, c_got = s_got + s_got2, c_got + c_got2
         ev["alive"] = p.poll() is None
         if ev["alive"]:
             try:
@@ -304,8 +344,8 @@ def run(ctx, replay):
     binary = build_binary(ctx, "proxy")
     rng = random.Random(ctx.seed * 104729 + 19)
     kinds = ["valid", "malformed", "html", "random", "mixed", "many", "bulk", "burst", "bigburst", "bulk", "mixed", "html", "burst",
-             "close", "tls12close", "tls13", "tls12close", "close"]
-    nsess = 90 if ctx.thorough() else 18
+             "close", "tls12close", "tls13", "tls12close", "close", "second"]
+    nsess = 95 if ctx.thorough() else 19
     cert = ctx.path("upstream")
     ctx.drive(ctx.build_harness(), ["gencert", cert])
     events = []
